@@ -48,21 +48,33 @@ def Box2.intersectsPoint {α : Type} [LE α] [DecidableLE α] (b : Box2 α) (p :
   else
     false
 
-/-- extracted from the C++ template at T = Sym; 5 path(s) -/
-def Box2.intersectsBox {α : Type} [LE α] [DecidableLE α] (b : Box2 α) (o : Box2 α) : Bool :=
-  if o.min.x ≤ b.max.x then
-    if b.min.x ≤ o.max.x then
-      if o.min.y ≤ b.max.y then
-        if b.min.y ≤ o.max.y then
-          true
-        else
-          false
-      else
-        false
-    else
-      false
-  else
+/-- extracted from the C++ template at T = Sym; 9 path(s) -/
+def Box2.intersectsBox {α : Type} [LT α] [LE α] [DecidableLT α] [DecidableLE α] (b : Box2 α) (o : Box2 α) : Bool :=
+  if b.max.x < b.min.x then
     false
+  else
+    if b.max.y < b.min.y then
+      false
+    else
+      if o.max.x < o.min.x then
+        false
+      else
+        if o.max.y < o.min.y then
+          false
+        else
+          if o.min.x ≤ b.max.x then
+            if b.min.x ≤ o.max.x then
+              if o.min.y ≤ b.max.y then
+                if b.min.y ≤ o.max.y then
+                  true
+                else
+                  false
+              else
+                false
+            else
+              false
+          else
+            false
 
 /-- extracted from the C++ template at T = Sym; 3 path(s) -/
 def Box2.isEmpty {α : Type} [LT α] [DecidableLT α] (b : Box2 α) : Bool :=
@@ -211,27 +223,45 @@ def Box3.intersectsPoint {α : Type} [LE α] [DecidableLE α] (b : Box3 α) (p :
   else
     false
 
-/-- extracted from the C++ template at T = Sym; 7 path(s) -/
-def Box3.intersectsBox {α : Type} [LE α] [DecidableLE α] (b : Box3 α) (o : Box3 α) : Bool :=
-  if o.min.x ≤ b.max.x then
-    if b.min.x ≤ o.max.x then
-      if o.min.y ≤ b.max.y then
-        if b.min.y ≤ o.max.y then
-          if o.min.z ≤ b.max.z then
-            if b.min.z ≤ o.max.z then
-              true
-            else
-              false
-          else
-            false
-        else
-          false
-      else
-        false
-    else
-      false
-  else
+/-- extracted from the C++ template at T = Sym; 13 path(s) -/
+def Box3.intersectsBox {α : Type} [LT α] [LE α] [DecidableLT α] [DecidableLE α] (b : Box3 α) (o : Box3 α) : Bool :=
+  if b.max.x < b.min.x then
     false
+  else
+    if b.max.y < b.min.y then
+      false
+    else
+      if b.max.z < b.min.z then
+        false
+      else
+        if o.max.x < o.min.x then
+          false
+        else
+          if o.max.y < o.min.y then
+            false
+          else
+            if o.max.z < o.min.z then
+              false
+            else
+              if o.min.x ≤ b.max.x then
+                if b.min.x ≤ o.max.x then
+                  if o.min.y ≤ b.max.y then
+                    if b.min.y ≤ o.max.y then
+                      if o.min.z ≤ b.max.z then
+                        if b.min.z ≤ o.max.z then
+                          true
+                        else
+                          false
+                      else
+                        false
+                    else
+                      false
+                  else
+                    false
+                else
+                  false
+              else
+                false
 
 /-- extracted from the C++ template at T = Sym; 4 path(s) -/
 def Box3.isEmpty {α : Type} [LT α] [DecidableLT α] (b : Box3 α) : Bool :=
@@ -1953,33 +1983,57 @@ def Box4.intersectsPoint {α : Type} [LT α] [DecidableLT α] (b : Box4 α) (p :
                 else
                   true
 
-/-- extracted from the C++ template at T = Sym; 9 path(s) -/
+/-- extracted from the C++ template at T = Sym; 17 path(s) -/
 def Box4.intersectsBox {α : Type} [LT α] [DecidableLT α] (b : Box4 α) (o : Box4 α) : Bool :=
-  if o.max.x < b.min.x then
+  if b.max.x < b.min.x then
     false
   else
-    if b.max.x < o.min.x then
+    if b.max.y < b.min.y then
       false
     else
-      if o.max.y < b.min.y then
+      if b.max.z < b.min.z then
         false
       else
-        if b.max.y < o.min.y then
+        if b.max.w < b.min.w then
           false
         else
-          if o.max.z < b.min.z then
+          if o.max.x < o.min.x then
             false
           else
-            if b.max.z < o.min.z then
+            if o.max.y < o.min.y then
               false
             else
-              if o.max.w < b.min.w then
+              if o.max.z < o.min.z then
                 false
               else
-                if b.max.w < o.min.w then
+                if o.max.w < o.min.w then
                   false
                 else
-                  true
+                  if o.max.x < b.min.x then
+                    false
+                  else
+                    if b.max.x < o.min.x then
+                      false
+                    else
+                      if o.max.y < b.min.y then
+                        false
+                      else
+                        if b.max.y < o.min.y then
+                          false
+                        else
+                          if o.max.z < b.min.z then
+                            false
+                          else
+                            if b.max.z < o.min.z then
+                              false
+                            else
+                              if o.max.w < b.min.w then
+                                false
+                              else
+                                if b.max.w < o.min.w then
+                                  false
+                                else
+                                  true
 
 /-- extracted from the C++ template at T = Sym; 5 path(s) -/
 def Box4.isEmpty {α : Type} [LT α] [DecidableLT α] (b : Box4 α) : Bool :=
